@@ -109,6 +109,10 @@ pub struct RawReq {
     /// index of a set of protocol-irrelevant request headers (0 = none)
     #[serde(default)]
     pub extra: u8,
+    /// k > 0: the k-th letter of the fixed part of a protocol route ("/v1/client/<name>") is
+    /// written percent-encoded (%63 for c, ...): another spelling of the same path
+    #[serde(default)]
+    pub spell: u8,
 }
 
 #[derive(Clone, Copy, Debug, PartialEq, Eq, Hash)]
@@ -224,6 +228,21 @@ pub fn build(r: &RawReq, client: Uuid, other: Uuid, id: Uuid) -> Built {
         Route::TrailingSlash(k) => (TRAILING[k as usize % TRAILING.len()].replace("%ID%", &canon), false, "", false),
     };
     let path = if has_id && r.pid == IdForm::ExtraSegment { format!("{path}/extra") } else { path };
+    let mut respelled = false;
+    let path = if r.spell > 0 && matches!(r.route, Route::AddVersion | Route::GetChild | Route::AddSnapshot | Route::GetSnapshot) {
+        // the fixed part ends before the id segment
+        let fixed_len = if has_id { path[..path.len() - pid.len() - if r.pid == IdForm::ExtraSegment { 6 } else { 0 }].len() } else { path.len() };
+        let letters: Vec<usize> = path.char_indices().take_while(|(i, _)| *i < fixed_len).filter(|(_, c)| c.is_ascii_alphanumeric() || *c == '-').map(|(i, _)| i).collect();
+        if letters.is_empty() {
+            path
+        } else {
+            let at = letters[(r.spell as usize - 1) % letters.len()];
+            respelled = true;
+            format!("{}%{:02X}{}", &path[..at], path.as_bytes()[at], &path[at + 1..])
+        }
+    } else {
+        path
+    };
     let mut reasons = vec![];
     let mut expect = Expect::Serve;
     let mut endpoint = None;
@@ -249,6 +268,11 @@ pub fn build(r: &RawReq, client: Uuid, other: Uuid, id: Uuid) -> Built {
                 endpoint = Some(r.route);
             }
         }
+    }
+    if respelled && expect == Expect::Serve {
+        // the same path by RFC 3986 (unreserved characters may be percent-encoded): served like
+        // the plain spelling, or refused - never anything else
+        expect = Expect::Either;
     }
     let mut headers: Vec<(String, Vec<u8>)> = vec![];
     match id_text(client, r.cid, false) {
@@ -425,7 +449,7 @@ pub fn rawreq(n: u8) -> impl Strategy<Value = RawReq> {
         2 => (0u8..10).prop_map(Route::NearMiss),
         1 => (0u8..4).prop_map(Route::TrailingSlash),
     ];
-    (route, 0u8..100, 0..n, idform_header(), any_idref(n), idform_path(), ctform(), bodyform(), (any::<bool>(), prop::bool::weighted(0.15), prop_oneof![2 => Just(0u8), 1 => 1u8..crate::driver::N_EXTRA_HEADER_SETS])).prop_map(|(route, m, client, cid, idref, pid, ct, body, (announce_len, http10, extra))| {
+    (route, 0u8..100, 0..n, idform_header(), any_idref(n), idform_path(), ctform(), bodyform(), (any::<bool>(), prop::bool::weighted(0.15), prop_oneof![2 => Just(0u8), 1 => 1u8..crate::driver::N_EXTRA_HEADER_SETS], prop_oneof![6 => Just(0u8), 1 => 1u8..40])).prop_map(|(route, m, client, cid, idref, pid, ct, body, (announce_len, http10, extra, spell))| {
         // the right method most of the time
         let method = if m < 72 {
             match route {
@@ -436,7 +460,7 @@ pub fn rawreq(n: u8) -> impl Strategy<Value = RawReq> {
             m % 7
         };
         // an own-latest parent most of the time for writes by construction of any_idref
-        RawReq { route, method, client, cid, idref, pid, ct, body, announce_len, http10, extra }
+        RawReq { route, method, client, cid, idref, pid, ct, body, announce_len, http10, extra, spell }
     })
 }
 
